@@ -207,10 +207,18 @@ func (x *Exec) run() {
 	env := x.entryEnv(st)
 	env.st = st
 	for _, r := range x.ct.Requires {
-		st.assume(env.evalBool(r.Expr))
+		g, facts := env.evalWithFacts(r.Expr)
+		for _, f := range facts {
+			st.assume(f)
+		}
+		st.assume(g)
 	}
 	for _, d := range x.ct.Domain {
-		st.assume(env.evalBool(d.Expr))
+		g, facts := env.evalWithFacts(d.Expr)
+		for _, f := range facts {
+			st.assume(f)
+		}
+		st.assume(g)
 	}
 	x.entry = st.clone()
 	// cover: the precondition must be satisfiable
@@ -235,7 +243,10 @@ func (x *Exec) run() {
 	for i, e := range x.ct.Ensures {
 		parts := splitConj(e.Expr)
 		for j, p := range parts {
-			g := post.evalBool(p)
+			g, facts := post.evalWithFacts(p)
+			for _, f := range facts {
+				final.assume(f)
+			}
 			name := fmt.Sprintf("post[%d]", i)
 			if len(parts) > 1 {
 				name = fmt.Sprintf("post[%d.%d]", i, j)
